@@ -7,6 +7,7 @@ import (
 	"go/printer"
 	"go/token"
 	"go/types"
+	"golang.org/x/tools/go/packages"
 	"os/exec"
 	"regexp"
 	"sort"
@@ -115,7 +116,7 @@ func (p *Prog) locateBCE(s *BCESite) {
 				stack = append(stack, n)
 				switch x := n.(type) {
 				case *ast.FuncDecl:
-					fn = funcDeclName(x)
+					fn = canonDeclName(pk, x)
 				case *ast.IndexExpr, *ast.SliceExpr:
 					// the compiler reports the position of the '[' or of the index operand
 					lb := lbrackPos(p.Fset, x)
@@ -130,7 +131,7 @@ func (p *Prog) locateBCE(s *BCESite) {
 				fn = ""
 				ast.Inspect(f, func(n ast.Node) bool {
 					if fd, ok := n.(*ast.FuncDecl); ok {
-						fn = funcDeclName(fd)
+						fn = canonDeclName(pk, fd)
 					}
 					if call, ok := n.(*ast.CallExpr); ok {
 						a, b := p.Fset.Position(call.Pos()), p.Fset.Position(call.End())
@@ -147,7 +148,7 @@ func (p *Prog) locateBCE(s *BCESite) {
 					if fd, ok := n.(*ast.FuncDecl); ok {
 						a, b := p.Fset.Position(fd.Pos()), p.Fset.Position(fd.End())
 						if a.Line <= s.Line && s.Line <= b.Line {
-							bestFn = funcDeclName(fd)
+							bestFn = canonDeclName(pk, fd)
 						}
 						return false
 					}
@@ -184,6 +185,19 @@ func lbrackPos(fset *token.FileSet, n ast.Node) token.Position {
 		return fset.Position(x.Lbrack)
 	}
 	return fset.Position(n.Pos())
+}
+
+// canonDeclName is funcDeclName with a renamed function reported under its inventory name.
+func canonDeclName(pk *packages.Package, d *ast.FuncDecl) string {
+	s := funcDeclName(d)
+	if pk != nil && pk.TypesInfo != nil {
+		if f, ok := pk.TypesInfo.Defs[d.Name].(*types.Func); ok {
+			if old := CanonName(f); old != d.Name.Name && strings.HasSuffix(s, d.Name.Name) {
+				s = s[:len(s)-len(d.Name.Name)] + old
+			}
+		}
+	}
+	return s
 }
 
 func funcDeclName(d *ast.FuncDecl) string {
